@@ -125,16 +125,25 @@ impl HNode {
     }
 
     pub fn to_json(&self) -> Value {
+        // very deep trees are reported in brief: nested JSON thousands of levels deep cannot be read
+        // back by ordinary JSON readers (the driver's included); replays regenerate the case anyway
+        if self.depth() > 150 {
+            return json!({ "deep_tree": self.brief(3000), "depth": self.depth(), "nodes": self.count_nodes() });
+        }
+        self.to_json_unbounded()
+    }
+
+    fn to_json_unbounded(&self) -> Value {
         match self {
             HNode::Term(p) => json!({ "t": fjson(*p) }),
             HNode::Chance { info, outs } => json!({
                 "c": info,
-                "o": outs.iter().map(|(w, n)| json!([fjson(*w), n.to_json()])).collect::<Vec<_>>(),
+                "o": outs.iter().map(|(w, n)| json!([fjson(*w), n.to_json_unbounded()])).collect::<Vec<_>>(),
             }),
             HNode::Player { p, info, acts } => json!({
                 "p": p + 1,
                 "i": info,
-                "a": acts.iter().map(|(a, n)| json!([a, n.to_json()])).collect::<Vec<_>>(),
+                "a": acts.iter().map(|(a, n)| json!([a, n.to_json_unbounded()])).collect::<Vec<_>>(),
             }),
         }
     }
@@ -144,7 +153,11 @@ impl HNode {
         let mut s = String::new();
         self.brief_into(&mut s, limit);
         if s.len() > limit {
-            s.truncate(limit);
+            let mut cut = limit;
+            while !s.is_char_boundary(cut) {
+                cut -= 1;
+            }
+            s.truncate(cut);
             s.push_str("...");
         }
         s
